@@ -117,3 +117,26 @@ def check(case):
         cl.append("later_insertion")
     return engine.ok(inserted_later, cl, {"n": n, "shape": case["shape"], "cfg": cfg, "seqs": [s[:40] for s in seqs[:3]],
                                           "nodes": len(snaps)})
+
+
+# ------------------------------------------------------------------ enumerated size sweep
+
+def extra(tier, seed, stats):
+    from concurrent.futures import ThreadPoolExecutor
+    from vlib import sweeps
+    cases_ = []
+    for n in sweeps.count_sweep(tier == "quick"):
+        if n < 3:
+            continue
+        kind = "dna" if n % 2 else "protein"
+        cases_.append({"seqs": sweeps.family(n, 15 + n % 25, kind, salt=seed, indel=0.08),
+                       "cfg": {"type": 5, "threads": 1 + n % 4, "gpo": -1.0, "gpe": -1.0, "tgpe": -1.0}, "shape": "sweep_n"})
+    with ThreadPoolExecutor(max_workers=12) as ex:
+        res = list(ex.map(check, cases_))
+    out = []
+    for c, r in zip(cases_, res):
+        stats.record(c, r)
+        if r["status"] == "violation":
+            out.append({"case": c, "detail": r["detail"], "kind": r.get("kind")})
+    stats.extra["sweep"] = "every sequence count of the count sweep (vlib/sweeps.py), indel-rich families"
+    return out
